@@ -179,6 +179,53 @@ def compare_sequences(R, rule, inst, where, rd, wr):
     return True
 
 
+def must_written_members(F, f, cls, depth=0, memo=None):
+    """data members of `cls` assigned (or cleared / moved into) on every path through f, following calls of the class's own member functions
+    on *this"""
+    from ..cfg import must_dataflow
+    memo = {} if memo is None else memo
+    if f.key in memo:
+        return memo[f.key]
+    memo[f.key] = set()
+    if f.body is None or depth > 4 or not f.cfg.blocks:
+        return set()
+
+    def telem(facts, e):
+        n_ = e.node if e.kind == "node" else None
+        if n_ is None:
+            return
+        a_ = assignment(n_)
+        if a_:
+            l = skip(a_[0])
+            if l["k"] == "mem" and (not l.get("c") or skip(l["c"][0])["k"] == "this") and a_[2] == "=":
+                facts.add(l["n"])
+            return
+        if n_["k"] == "call":
+            if n_.get("ck") == "op" and n_.get("op") == "=" and n_.get("c"):
+                l = skip(n_["c"][0])
+                if l["k"] == "mem" and (not l.get("c") or skip(l["c"][0])["k"] == "this"):
+                    facts.add(l["n"])
+                return
+            if n_.get("ck") == "mem" and n_.get("c") and callee(n_).split("::")[-1] in ("clear", "assign") and skip(n_["c"][0])["k"] == "mem" and \
+                    (not skip(n_["c"][0]).get("c") or skip(skip(n_["c"][0])["c"][0])["k"] == "this"):
+                facts.add(skip(n_["c"][0])["n"])
+                return
+            if n_.get("ck") == "mem" and n_.get("c") and skip(n_["c"][0])["k"] == "this":
+                for g in F.functions.values():
+                    if g.qn == callee(n_) and g.cls == cls and g.body is not None and len(g.params) == len(args(n_)) and not g.is_const:
+                        facts.update(must_written_members(F, g, cls, depth + 1, memo))
+                        break
+    IN, before = must_dataflow(f.cfg, set(), telem)
+    outs = []
+    for b in f.cfg.blocks:
+        if IN[b] is None or [s_ for s_ in f.cfg.blocks[b].succ if s_ >= 0]:
+            continue
+        outs.append(set(before(b, 10 ** 9)))
+    res = set.intersection(*outs) if outs else set()
+    memo[f.key] = res
+    return res
+
+
 def rule_class_pairs(F, R, thorough):
     classes = {}
     for f in F.functions.values():
@@ -201,13 +248,17 @@ def rule_class_pairs(F, R, thorough):
             R.incomplete("R-C15-2", "class " + cls, d["read"].loc(), "class definition not found")
             continue
         fields = [fl["n"] for fl in cl[0]["fields"]]
+        restored = must_written_members(F, d["read"], cls)
         for mode, toks in (("read", rd), ("write", wr)):
             got = {t[1] for t in toks if t[0] == "io"}
+            if mode == "read":
+                got |= restored        # members (re)built on *every* path of read(), also through the class's own member functions
             missing = [x for x in fields if x not in got and (cls, mode, x) not in COVERAGE_ALLOW]
             R.check(not missing, "R-C15-2", "class %s %s" % (cls, mode), d[mode].loc(),
                     "every data member %s is %s" % (fields, "read" if mode == "read" else "written"),
                     "data member(s) %s of %s are not %s (configuration lost on a round trip)" % (
-                        missing, cls, "restored by read()" if mode == "read" else "stored by write()"))
+                        missing, cls, "restored by read() on every path (a member the reader fills on some paths only keeps what the destination object held before)"
+                        if mode == "read" else "stored by write()"))
         # R-C15-5 the reader returns the stream only after its throwing checks
         f = d["read"]
         rets = [x for x in f.nodes() if x["k"] == "return"]
